@@ -68,6 +68,14 @@ def main(argv):
     ctx = common.Ctx(prop, tier)
     try:
         rc = mod.run(ctx)
+    except SystemExit:
+        raise
+    except BaseException:  # a crash of the machinery is not a verdict
+        import traceback
+
+        traceback.print_exc()
+        common.close_pool()
+        common.die_infra("check %s crashed (see traceback above)" % prop)
     finally:
         common.close_pool()
     return rc
